@@ -131,30 +131,40 @@ def main():
     agreeing = total = 0
     samples = []
     nprog = 2500 if thorough else 25
-    for i in range(nprog):
-        g = progen.Gen(rng.fork("p%d" % i))
-        p = g.program(size=3 + rng.below(6))
+    prngs = [rng.fork("prog%d" % i) for i in range(nprog)]
+    nparts = 3 if thorough else 2
+
+    def process(i):
+        """one generated program: its partitions, file orders and negative variants; returns counters and violations"""
+        lrng = prngs[i]
+        dist = collections.Counter()
+        total = agreeing = 0
+        viols = []
+        sample = None
+        g = progen.Gen(lrng.fork("p"))
+        p = g.program(size=3 + lrng.below(6))
         ma = runlib.model_run([p])[0]
         mo = runlib.model_obs(ma)
         if mo[0] != "ok":
             dist["discarded:" + mo[0]] += 1
-            continue
-        lay = progen.Layout(rng.fork("l%d" % i), plain=True)
+            return dist, total, agreeing, viols, sample
+        lay = progen.Layout(lrng.fork("l"), plain=True)
         single = progen.src_prog(p, lay)
-        for part in range(3 if thorough else 2):
-            k = 2 + rng.below(3)
-            prng = rng.fork("s%d_%d" % (i, part))
-            files, where, pub, imports, refs = split(p, prng, k, lay)
+        for part in range(nparts):
+            k = 2 + lrng.below(3)
+            sv = lrng.next()
+            prng = SplitMix64(sv)
+            files, where, pub, imports, refs = split(p, SplitMix64(sv), k, lay)
             orders = list(itertools.permutations(range(k)))
             if len(orders) > 6:
-                orders = [orders[rng.below(len(orders))] for _ in range(4)] + [orders[0], orders[-1]]
+                orders = [orders[lrng.below(len(orders))] for _ in range(4)] + [orders[0], orders[-1]]
             reqs = []
             for o in orders:
                 fields = []
                 for j in o:
                     fields += [files[j][0], esc(files[j][1])]
                 reqs.append("alpha\trun\t" + "\t".join(fields))
-            hs = run_harness(reqs)
+            hs = run_harness_pooled(reqs)
             for o, ha, rq in zip(orders, hs, reqs):
                 total += 1
                 io = runlib.impl_obs(ha)
@@ -177,31 +187,31 @@ def main():
                                     hidden.add(r)
                                     changed = True
                     if hidden and 402 in (codes_of(kv(ha)[1]) if ha.startswith("err") else []):
-                        files_n, _w, _p, _i, _r = split(p, rng.fork("s%d_%d" % (i, part)), k, lay, force_pub=hidden)
+                        files_n, _w, _p, _i, _r = split(p, SplitMix64(sv), k, lay, force_pub=hidden)
                         fields = []
                         for j in o:
                             fields += [files_n[j][0], esc(files_n[j][1])]
-                        ha_n = run_harness_serial(["alpha\trun\t" + "\t".join(fields)])[0]
+                        ha_n = run_harness_pooled(["alpha\trun\t" + "\t".join(fields)])[0]
                         if runlib.impl_obs(ha_n)[:3] == mo:
                             key = "c12:pub-constant-initialised-from-private-constant"
-                    rep.violation(key, {
+                    viols.append((key, {
                         "why": "the program split over %d files (order %s) does not behave like the single-file program" % (k, o),
                         "files": dict(files), "order": o, "single_file": single, "harness_request": rq,
-                        "model_request": "run\t" + progen.sx_prog(p), "implementation": ha[:1500], "model": ma[:800]})
+                        "model_request": "run\t" + progen.sx_prog(p), "implementation": ha[:1500], "model": ma[:800]}))
             if i == 0 and part == 0:
-                samples.append({"files": dict(files)})
+                sample = {"files": dict(files)}
             # negative: hide one needed item / drop one needed import: must be rejected; the expansion model says which refs break
             cross = sorted(pub)
             if cross:
                 victim = prng.pick(cross)
-                files2, where2, pub2, imports2, refs2 = split(p, rng.fork("s%d_%d" % (i, part)), k, lay, drop_pub=victim)
+                files2, where2, pub2, imports2, refs2 = split(p, SplitMix64(sv), k, lay, drop_pub=victim)
                 rlist, bits, mreq = model_visibility(p, where2, pub2, imports2, refs2, k)
                 expect_reject = "0" in bits
                 fields = []
                 for j in range(k):
                     fields += [files2[j][0], esc(files2[j][1])]
                 rq = "alpha\tcheck\t" + "\t".join(fields)
-                ha = run_harness_serial([rq])[0]
+                ha = run_harness_pooled([rq])[0]
                 hh, hd = kv(ha)
                 total += 1
                 codes = codes_of(hd) if hh == "err" else []
@@ -210,20 +220,20 @@ def main():
                 if ok:
                     agreeing += 1
                 else:
-                    rep.violation("private:%d:%s:%s" % (i, part, victim), {
+                    viols.append(("private:%d:%s:%s" % (i, part, victim), {
                         "why": "private item %s referenced from another module: model expects %s" % (victim, "rejection (E401/E402/E405)" if expect_reject else "acceptance"),
-                        "files": dict(files2), "harness_request": rq, "model_request": mreq, "implementation": ha[:600], "model_bits": bits})
+                        "files": dict(files2), "harness_request": rq, "model_request": mreq, "implementation": ha[:600], "model_bits": bits}))
             pairs = [(m, j) for m in range(k) for j in sorted(imports[m])]
             if pairs:
                 dm = prng.pick(pairs)
-                files3, where3, pub3, imports3, refs3 = split(p, rng.fork("s%d_%d" % (i, part)), k, lay, drop_import=dm)
+                files3, where3, pub3, imports3, refs3 = split(p, SplitMix64(sv), k, lay, drop_import=dm)
                 rlist, bits, mreq = model_visibility(p, where3, pub3, imports3, refs3, k, drop_import=dm)
                 expect_reject = "0" in bits
                 fields = []
                 for j in range(k):
                     fields += [files3[j][0], esc(files3[j][1])]
                 rq = "alpha\tcheck\t" + "\t".join(fields)
-                ha = run_harness_serial([rq])[0]
+                ha = run_harness_pooled([rq])[0]
                 hh, hd = kv(ha)
                 total += 1
                 codes = codes_of(hd) if hh == "err" else []
@@ -232,9 +242,22 @@ def main():
                 if ok:
                     agreeing += 1
                 else:
-                    rep.violation("noimport:%d:%s:%s" % (i, part, dm), {
+                    viols.append(("noimport:%d:%s:%s" % (i, part, dm), {
                         "why": "module m%d no longer imports m%d (items reachable only transitively): model expects %s" % (dm[0], dm[1], "rejection" if expect_reject else "acceptance"),
-                        "files": dict(files3), "harness_request": rq, "model_request": mreq, "implementation": ha[:600], "model_bits": bits})
+                        "files": dict(files3), "harness_request": rq, "model_request": mreq, "implementation": ha[:600], "model_bits": bits}))
+        return dist, total, agreeing, viols, sample
+
+    import concurrent.futures
+    with concurrent.futures.ThreadPoolExecutor(max_workers=NCPU) as ex:
+        results = list(ex.map(process, range(nprog)))
+    for d_, t_, a_, viols, sample in results:
+        dist.update(d_)
+        total += t_
+        agreeing += a_
+        if sample:
+            samples.append(sample)
+        for key, payload in viols:
+            rep.violation(key, payload)
     # probe of known finding F37 (so that it is reported on every run, whatever the random partitions were)
     probe = [("lib.pn", "const A: i32 = 2;\npub const B: i32 = A + 1;\n"),
              ("main.pn", 'import "lib.pn";\nfn main() -> i32\n{\n\treturn: B\n}\n')]
@@ -309,6 +332,26 @@ def main():
                            % ("pub" if is_pub else "private", kind, edges[0], edges[1], edges[2], "+".join(n for n, u in (("a", ua), ("b", ub)) if u),
                               [files3[j][0] for j in o], "acceptance (status 7)" if expect_ok else "rejection (E401/E402/E405)"),
                     "files": dict(files3), "harness_request": rq, "model_request": mreq, "implementation": ha[:400], "model_bits": bits})
+    # namesakes: two leaf modules c and d that never meet each declare a pub constant of the same name; a imports b and c,
+    # b imports d; every user sees the constant of the module it imports, in every file order (24)
+    if os.environ.get("VERIF_C12_NAMESAKES", "1") == "1":
+        nfiles = [("a.pn", 'import "b.pn";\nimport "c.pn";\nfn main() -> i32\n{\n\treturn: LIMIT + fb()\n}\n'),
+                  ("b.pn", 'import "d.pn";\npub fn fb() -> i32\n{\n\treturn: LIMIT\n}\n'),
+                  ("c.pn", "pub const LIMIT: i32 = 7;\n"),
+                  ("d.pn", "pub const LIMIT: i32 = 9;\nconst HIDDEN: i32 = 1;\n")]
+        norders = list(itertools.permutations(range(4)))
+        nreqs = ["alpha\trun\t" + "\t".join(x for j in o for x in (nfiles[j][0], esc(nfiles[j][1]))) for o in norders]
+        for o, ha, rq in zip(norders, run_harness(nreqs), nreqs):
+            total += 1
+            hh, hd = kv(ha)
+            dist["namesake:" + hh[:8]] += 1
+            if hh == "ok" and hd.get("status") == "16":
+                agreeing += 1
+            else:
+                rep.violation("namesake:const:%s" % "".join(map(str, o)), {
+                    "why": "two modules that never meet declare a pub constant of the same name; each importer must see its own "
+                           "(expected exit status 7 + 9 = 16): " + ha[:200],
+                    "files": dict(nfiles), "order": [nfiles[j][0] for j in o], "harness_request": rq, "implementation": ha[:400]})
     # history independence: a module's IR must not depend on unrelated modules compiled before it by the same Compiler
     mods = []
     for i in range(120 if thorough else 12):
@@ -355,7 +398,8 @@ def main():
                 "exactly when the Lean expansion model says a reference no longer resolves; interface matrix: an item of every "
                 "declaration kind (fn, extern head, const, struct, word), pub or private, in a leaf module x every acyclic import "
                 "graph over three modules x users x all 6 file orders: accepted exactly when the model says every user sees it, "
-                "and then exit status as in one file; sequences of unrelated modules "
+                "and then exit status as in one file; two leaf modules that never meet with a pub constant of the same name, "
+                "all 24 file orders; sequences of unrelated modules "
                 "through one Compiler must give each module the IR it gets alone",
         "traces_validated_against_impl": agreeing, "distribution": dict(dist), "samples": samples,
     })
